@@ -99,6 +99,19 @@ def replay_lsq(rec, ctx):
             bad("nnls:reported-residual-inconsistent", f"{rnorm} vs sqrt(objective) {math.sqrt(fr(rec['obj_nnls']))}")
         if (np.asarray(x) < 0).any():
             bad("nnls:negative-solution", str(list(x)))
+    # the geometry matrix and the measurements handed over as integer arrays (a hand-typed 0/1 incidence matrix):
+    # LeastSquares.tla: Reprs - the minimisers do not depend on the dtype the caller's arrays happen to have
+    for dt in rec.get("reprs", ["float64"]):
+        if dt == "float64":
+            continue
+        Wi, bi = np.array(rec["W"], dtype=dt), np.array(rec["b"], dtype=dt)
+        xi, _ = invert_regularised_lstsq(Wi, bi, alpha=alpha, tikhonov_matrix=np.eye(2))
+        if not core.close([float(v) for v in xi], [fr(p) for p in rec["lstsq"]], rtol=1e-9, atol=1e-12):
+            bad(f"lstsq:not-the-minimiser[{dt}-arrays]", f"x = {list(xi)}, exact {[fr(p) for p in rec['lstsq']]}")
+        if b.max() > 0:
+            xi, _ = invert_regularised_nnls(Wi, bi, alpha=alpha, tikhonov_matrix=np.eye(2))
+            if not core.close([float(v) for v in xi], [fr(p) for p in rec["nnls"]], rtol=1e-9, atol=1e-11):
+                bad(f"nnls:not-the-minimiser[{dt}-arrays]", f"x = {list(xi)}, exact {[fr(p) for p in rec['nnls']]}")
     # the default (no Tikhonov matrix given = identity) must agree
     xd, _ = invert_regularised_lstsq(W, b, alpha=alpha)
     if not core.close([float(v) for v in xd], [fr(p) for p in rec["lstsq"]], rtol=1e-9, atol=1e-12):
